@@ -31,7 +31,7 @@ N_RANDOM = 220  # free random histories per budget unit (x 2 classes)
 DNA_COMP = str.maketrans("ACGTUNRYSWKMBDHV-?", "TGCAANYRSWMKVHDB-?")
 RNA_COMP = str.maketrans("ACGUTNRYSWKMBDHV-?", "UGCAANYRSWMKVHDB-?")
 CANON = {"dna": "ACGT", "rna": "ACGU", "protein": "ACDEFGHIKLMNPQRSTVWY"}
-DEGEN = {"dna": "NRY", "rna": "NRY", "protein": "XB"}
+DEGEN = {"dna": "NRY?", "rna": "NRY?", "protein": "XB?"}
 
 
 def add_failure(out, kind, what, inp, expected, got, confirmed=True, sig=None):
@@ -263,6 +263,22 @@ def _gen_op(rng, kind, mt, rows, wild=True):
             sel.reverse()
         neg = rng.random() < 0.2 and len(sel) < nr
         return ["take_seqs", sel, neg]
+    if kind == "copy":
+        # copies / serialisation round trips in the middle of a chain: deepcopy, copy, to_rich_dict -> deserialise_object,
+        # to_json -> deserialise_object (a sliced then rc'd row must survive them unchanged)
+        return ["copy", rng.choice(["deepcopy", "deepcopy", "copy", "rich_dict", "json", "json"])]
+    if kind == "add_perm":
+        # `+` with the right operand's rows in another order (pairing must be by NAME), optionally transformed
+        order = list(names)
+        if len(order) > 1:
+            while order == names:
+                rng.shuffle(order)
+        how = rng.choice(["perm", "perm", "perm-rc", "perm-slice"]) if mt in ("dna", "rna") else rng.choice(["perm", "perm-slice"])
+        return ["add", how, order]
+    if kind == "degap_amb":
+        # reference rows holding '?', N, R ... : only the gap character marks a dropped column
+        amb = [nm for nm, v in rows.items() if any(c in v for c in "?NRYXB")]
+        return ["degapped_relative_to", rng.choice(amb if amb else names)]
     if kind == "to_type:T":
         return ["to_type", True]
     if kind == "to_type:F":
@@ -273,6 +289,12 @@ def _gen_op(rng, kind, mt, rows, wild=True):
 
 
 PLANS = [
+    ("copy-chain", ["slice", "copy", "rc", "copy", "?slice", "?copy"]),
+    ("copy-chain", ["?take_seqs", "slice", "copy", "rc", "copy", "rc", "?copy", "?*"]),
+    ("copy-chain", ["rc", "copy", "slice", "copy", "?*"]),
+    ("add-perm", ["?slice", "?rc", "add_perm", "?*"]),
+    ("add-perm", ["take_seqs", "add_perm", "?copy"]),
+    ("degap-amb", ["?slice", "?rc", "degap_amb", "?*"]),
     ("slice-rc-slice", ["slice", "rc", "slice", "?*"]),
     ("slice-rc-slice", ["?take_positions", "slice", "rc", "slice", "?rc", "?slice"]),
     ("take_positions", ["?slice", "?rc", "take_positions", "?*"]),
@@ -317,7 +339,8 @@ def _rand_op(rng, mt, rows, wild=True):
         # the parameterised generators: gap-boundary slices, take_positions styles, exact gap fractions, motif-wise
         # filters, samples with motif_length, class conversion
         op = _gen_op(rng, rng.choice(["slice", "slice", "take_positions", "take_positions", "omit_gap_pos", "motif", "filtered",
-                                      "degapped_relative_to", "sample", "to_type:T", "to_type:F", "rc"]), mt, rows, wild)
+                                      "degapped_relative_to", "degap_amb", "sample", "to_type:T", "to_type:F", "rc",
+                                      "copy", "copy", "add_perm"]), mt, rows, wild)
         if op is not None:
             return op
     r = rng.random()
@@ -425,7 +448,16 @@ def _spec_apply(mt, rows, op):
         ml = op[2] if len(op) > 2 else 1
         return mt, {nm: "".join(s[i * ml : (i + 1) * ml] for i in op[1]) for nm, s in rows.items()}
     if k == "add":
-        return mt, {nm: s + s for nm, s in rows.items()}
+        if op[1] in ("self", "copy", "perm"):
+            return mt, {nm: s + s for nm, s in rows.items()}
+        if op[1] == "perm-rc":
+            tab = DNA_COMP if mt == "dna" else RNA_COMP
+            return mt, {nm: s + s[::-1].translate(tab) for nm, s in rows.items()}
+        if op[1] == "perm-slice":
+            return mt, {nm: s + s[1:] for nm, s in rows.items()}
+        raise ValueError(op[1])
+    if k == "copy":
+        return mt, dict(rows)
     if k == "to_type":
         return mt, dict(rows)
     if k == "to_rna":
@@ -487,6 +519,23 @@ def _real_apply(aln, op, mt):
         idx = op[1]
         ml = op[2] if len(op) > 2 else 1
         return aln.sample(n=len(idx), with_replacement=True, motif_length=ml, randint=lambda lo, hi, size: numpy.array(idx, dtype=int))
+    if k == "copy":
+        from cogent3.util.deserialise import deserialise_object
+
+        if op[1] == "deepcopy":
+            return aln.deepcopy()
+        if op[1] == "copy":
+            return aln.copy()
+        if op[1] == "rich_dict":
+            return deserialise_object(aln.to_rich_dict())
+        return deserialise_object(aln.to_json())
+    if k == "add" and op[1].startswith("perm"):
+        right = aln.take_seqs(list(op[2]))
+        if op[1] == "perm-rc":
+            right = right.rc()
+        elif op[1] == "perm-slice":
+            right = right[1:]
+        return aln + right
     if k == "add":
         if op[1] == "self":
             return aln + aln
@@ -539,6 +588,8 @@ def _op_detail(op, rows):
         return "plain"
     if k == "add":
         return op[1]
+    if k == "copy":
+        return op[1] + (":zero-columns" if n == 0 else "")
     if k == "sample_perm" or k == "sample_idx":
         ml = (op[3] if len(op) > 3 else 1) if k == "sample_perm" else (op[2] if len(op) > 2 else 1)
         d = "n=0" if (k == "sample_perm" and op[2] == 0) or (k == "sample_idx" and not op[1]) else "given"
@@ -560,6 +611,8 @@ def _op_detail(op, rows):
         return d if ml == 1 else f"{d}:ml{ml}:{'rem' if n % ml else 'div'}"
     if k == "degapped_relative_to":
         ref = rows.get(op[1], "")
+        if any(c in ref for c in "?NRYXB"):
+            return "ref-ambiguity" + ("+?" if "?" in ref else "")
         if ref and not ref.replace("-", ""):
             return "ref-all-gap"
         c = [x for x, f in (("lead", ref[:1] == "-"), ("trail", ref[-1:] == "-")) if f]
@@ -695,6 +748,26 @@ def _run_history(out, rng, mt0, rows0, ops, arr, check_methods=True):
 # --------------------------------------------------------------------------
 # spec-level differential (also the failing-input search)
 # --------------------------------------------------------------------------
+def _collection_add(out, mt, seqs, order):
+    """SequenceCollection `+` with the right operand's sequences in another order: per-name concatenation"""
+    import cogent3
+
+    out["evaluations"] += 1
+    inp = dict(cls="SequenceCollection", moltype=mt, rows=seqs, ops=[["add", "perm", order]])
+    want = {k: v + v for k, v in seqs.items()}
+    try:
+        c = cogent3.make_unaligned_seqs(dict(seqs), moltype=mt)
+        got = (c + c.take_seqs(order)).to_dict()
+    except Exception as e:
+        add_failure(out, "spec", "SequenceCollection + raised", inp, want, type(e).__name__, sig="SequenceCollection:add:perm:exc")
+        return
+    if got != want:
+        add_failure(out, "spec", "SequenceCollection + does not concatenate the sequences of the same name", inp, want, got,
+                    sig="SequenceCollection:add:perm")
+    else:
+        bump(out, "op_detail", "SequenceCollection:add:perm")
+
+
 def _regression_corpus(out, rng):
     """witnesses of repaired defects (status "fixed" in known_findings.d/C03.json) are replayed first on every run;
     a failure is an ordinary spec failure (fixed entries are never matched as known)"""
@@ -749,6 +822,33 @@ def spec_check(ctx, budget):
         for i in range(-n - 1, n + 2):
             for arr in (False, True):
                 _run_history(out, rng, mt, rows, [["int", i]], arr, check_methods=False)
+    # get_degapped_relative_to with '-', '?', N, R in every position of the reference row, both classes: only the gap
+    # character marks a dropped column
+    base = {"dna": "ACGTAC", "rna": "ACGUAC", "protein": "MKVLAT"}
+    for mt in ("dna", "rna", "protein"):
+        for pos in range(6):
+            for ch in ("-", "?", DEGEN[mt][0], DEGEN[mt][1]):
+                ref = base[mt][:pos] + ch + base[mt][pos + 1 :]
+                ref2 = ref[:2] + "-" + ref[3:] if pos != 2 else ref
+                rows = {"s0": ref2, "s1": base[mt][::-1], "s2": "-" + base[mt][1:5] + "?"}
+                for arr in (False, True):
+                    _run_history(out, rng, mt, rows, [["degapped_relative_to", "s0"]], arr, check_methods=False)
+                    _run_history(out, rng, mt, rows, [["degapped_relative_to", "s2"]], arr, check_methods=False)
+    # `+` pairs rows by NAME: right operand with every permutation of three names, both classes and the plain collection
+    for mt, rows in (("dna", {"s0": "AC", "s1": "GT", "s2": "T-"}), ("protein", {"s0": "MK", "s1": "-L", "s2": "VV"})):
+        for order in itertools.permutations(list(rows)):
+            for how in ("perm", "perm-slice") + (("perm-rc",) if mt == "dna" else ()):
+                for arr in (False, True):
+                    _run_history(out, rng, mt, rows, [["add", how, list(order)]], arr, check_methods=False)
+            _collection_add(out, mt, {k: v.replace("-", "") + "A" * i for i, (k, v) in enumerate(rows.items())}, list(order))
+    # copies / serialisation round trips around rc on a slice that does not start at sequence coordinate 0
+    for mt, rows in (("dna", {"s0": "AAACCGGTTT", "s1": "A-ACC--TTG"}), ("rna", {"s0": "AAACCGGUUU", "s1": "-AACC--UUG"})):
+        for a, b in ((3, 9), (1, 10), (2, 5), (0, 7)):
+            for k1 in ("deepcopy", "copy", "rich_dict", "json"):
+                for k2 in ("deepcopy", "copy", "rich_dict", "json"):
+                    for arr in (False, True):
+                        _run_history(out, rng, mt, rows, [["slice", a, b], ["copy", k1], ["rc"], ["copy", k2], ["slice", 1, None]],
+                                     arr, check_methods=False)
     # planned histories: every class of the property's quantifier appears on purpose, on both classes
     for it in range(N_PLANNED * budget):
         name, plan = PLANS[it % len(PLANS)]
@@ -808,7 +908,7 @@ def spec_check(ctx, budget):
 # --------------------------------------------------------------------------
 MODEL_OPS = ("slice", "int", "rc", "take_seqs", "take_positions", "to_rna", "to_dna", "add", "keep",
              "degapped_relative_to", "sample_perm", "sample_idx", "to_type",
-             "no_degenerates", "omit_gap_pos", "filtered")
+             "no_degenerates", "omit_gap_pos", "filtered", "copy")
 
 
 def _filter_mask(mt, rows, op):
@@ -847,6 +947,8 @@ def _model_ops(mt, rows, ops):
             if mask is None:
                 break
             res.append(["filter_mask", mask])
+        elif op[0] == "copy" or (op[0] == "add" and op[1] not in ("self", "copy")):
+            break
         else:
             res.append(_model_op(op))
         try:
